@@ -84,4 +84,31 @@ theorem finalize_cache (isGen : Name → Bool) (present kept : List Name) (o : O
     (finalize isGen present kept o).cache = o.cache := by
   unfold finalize; exact removes_cache _ _
 
+/-- … and when the clean-up itself fails (a stale generated-looking file cannot be removed) the run is reported as failed
+    and the record it had just written is dropped again (fix 2a70fe0) -/
+def runBuildF (S : Sys Src Cfg Key Content) (isGen : Name → Bool) (present : List Name) (cleanupFails : Bool) (src : Src) (cfg : Cfg)
+    (forced : Bool) (fault : Option Nat) (o : Out Key Content) : Res × Action × Out Key Content :=
+  let rb := runBuild S isGen present src cfg forced fault o
+  if rb.1 = .ok ∧ rb.2.1 ≠ .noCommands ∧ cleanupFails = true then (.err, .failed, applyOp rb.2.2 .removeCache) else rb
+
+/-- a run whose clean-up failed reports failure and leaves no record: the next non-forced run cannot be a cache hit -/
+theorem runBuildF_cleanup_failure (S : Sys Src Cfg Key Content) (isGen : Name → Bool) (present : List Name) (src : Src) (cfg : Cfg)
+    (forced : Bool) (fault : Option Nat) (o : Out Key Content)
+    (hok : (runBuild S isGen present src cfg forced fault o).1 = .ok)
+    (hcmd : (runBuild S isGen present src cfg forced fault o).2.1 ≠ .noCommands) :
+    (runBuildF S isGen present true src cfg forced fault o).1 = .err ∧
+    (runBuildF S isGen present true src cfg forced fault o).2.2.cache = none ∧
+    ∀ src' cfg', upToDate S src' cfg' false (runBuildF S isGen present true src cfg forced fault o).2.2 = false := by
+  unfold runBuildF
+  simp only [hok, hcmd, ne_eq, not_false_eq_true, and_self, if_true]
+  refine ⟨by trivial, by simp [applyOp], ?_⟩
+  intro src' cfg'
+  simp [upToDate, applyOp]
+
+/-- without a clean-up failure it is the plain build-script run -/
+theorem runBuildF_false (S : Sys Src Cfg Key Content) (isGen : Name → Bool) (present : List Name) (src : Src) (cfg : Cfg)
+    (forced : Bool) (fault : Option Nat) (o : Out Key Content) :
+    runBuildF S isGen present false src cfg forced fault o = runBuild S isGen present src cfg forced fault o := by
+  unfold runBuildF; simp
+
 end R
